@@ -3,6 +3,8 @@ import Driver.C08
 import Driver.C01
 import Driver.C02
 import Driver.C03
+import Driver.C09
+import Driver.C10
 open Lean
 
 def dispatch (p op : String) (c i : Json) : Except String (Json × String) :=
@@ -11,6 +13,8 @@ def dispatch (p op : String) (c i : Json) : Except String (Json × String) :=
   | "C01" => D01.handle op c i
   | "C02" => D02.handle op c i
   | "C03" => D03.handle op c i
+  | "C09" => D09.handle op c i
+  | "C10" => D10.handle op c i
   | _ => throw s!"unknown property {p}"
 
 def handleLine (line : String) : String :=
